@@ -34,6 +34,9 @@ import (
 
 type c15Op struct {
 	// L setLen | H writeHeader | W write | F flush | S stream(chunk reader) | T stream(strings.Reader);
+	// B: the handler announces its Content-Length from a Response.Before hook (res.Before(func(){ Header().Set(…) })),
+	// i.e. at the moment the response is committed, as a middleware mounted inside Gzip would.  For the model this
+	// is `L n` placed directly before the op that commits the response (see c15ModelProg);
 	// not part of the model's program (they must not change the response, and must reach the
 	// underlying writer exactly as without the middleware): P res.Writer.(http.Pusher).Push |
 	// J res.Hijack() | D http.NewResponseController(res).SetWriteDeadline
@@ -42,6 +45,9 @@ type c15Op struct {
 	N      int      `json:"n,omitempty"`      // L
 	Data   a2bstr   `json:"data,omitempty"`   // W, T
 	Chunks []a2bstr `json:"chunks,omitempty"` // S
+	// S: the reader hands out its last chunk TOGETHER with io.EOF (an io.Reader may do that; callers must use the
+	// bytes before they look at the error).  Nothing changes for the model: it is the same stream.
+	EOFWithData bool `json:"eof_with_data,omitempty"`
 }
 
 // A request may carry ONE nested request: the handler serves it through the same Echo (same
@@ -194,10 +200,11 @@ func c15Gunzip(b []byte) ([]byte, error) {
 // ---------- the handler script ----------
 
 type c15ChunkReader struct {
-	chunks [][]byte
-	next   int
-	res    *echo.Response
-	sizes  []int64 // Response.Size at every Read call
+	chunks      [][]byte
+	next        int
+	res         *echo.Response
+	sizes       []int64 // Response.Size at every Read call
+	eofWithData bool    // the last bytes come with io.EOF
 }
 
 func (r *c15ChunkReader) Read(p []byte) (int, error) {
@@ -214,6 +221,14 @@ func (r *c15ChunkReader) Read(p []byte) (int, error) {
 		r.chunks[r.next] = c[n:]
 	} else {
 		r.next++
+	}
+	if r.eofWithData {
+		for r.next < len(r.chunks) && len(r.chunks[r.next]) == 0 {
+			r.next++
+		}
+		if r.next >= len(r.chunks) {
+			return n, io.EOF
+		}
 	}
 	return n, nil
 }
@@ -234,6 +249,7 @@ type c15Trace struct {
 	raw      *c15Raw  // the underlying recorder (nil in tcp mode)
 	iface    string   // first optional-interface call that did not behave as on the underlying writer
 	tcp      bool     // real connection: the interface ops are left out
+	fail     int      // the handler returns this error after its ops (0: none)
 }
 
 func c15RunOps(ctx echo.Context, ops []c15Op, tr *c15Trace) {
@@ -315,6 +331,12 @@ func c15RunOps(ctx echo.Context, ops []c15Op, tr *c15Trace) {
 		case "L":
 			res.Header().Set(echo.HeaderContentLength, strconv.Itoa(op.N))
 			tr.rets = append(tr.rets, "-")
+		case "B":
+			n := op.N
+			res.Before(func() { res.Header().Set(echo.HeaderContentLength, strconv.Itoa(n)) })
+			if c15HookAt(ops, i, tr.fail) >= 0 {
+				tr.rets = append(tr.rets, "-") // the model's `L n` (every op between here and the commit returns nothing either)
+			}
 		case "H":
 			choose(op.Code)
 			res.WriteHeader(op.Code)
@@ -342,7 +364,7 @@ func c15RunOps(ctx echo.Context, ops []c15Op, tr *c15Trace) {
 			for _, c := range op.Chunks {
 				chunks = append(chunks, []byte(c))
 			}
-			rd := &c15ChunkReader{chunks: chunks, res: res}
+			rd := &c15ChunkReader{chunks: chunks, res: res, eofWithData: op.EOFWithData}
 			result := 0
 			func() {
 				defer func() {
@@ -449,6 +471,68 @@ func c15OpLine(op c15Op) string {
 	return "?"
 }
 
+// c15Commits: the op commits the response (echo.Response.WriteHeader runs, and with it the Before hooks)
+func c15Commits(op c15Op) bool {
+	switch op.K {
+	case "H", "W", "F", "S", "T":
+		return true
+	}
+	return false
+}
+
+// c15HookAt: where the Content-Length set by the Before hook that ops[i] (a "B" op) registers takes effect: the
+// index of the op that commits the response (the hook runs inside it, before the writer below echo.Response sees
+// the status); len(ops) when the commit is the error handler's answer; -1 when the hook never runs (the response
+// was committed before the hook was registered, or is never committed by echo).
+func c15HookAt(ops []c15Op, i int, fail int) int {
+	for j := 0; j < i; j++ {
+		if c15Commits(ops[j]) {
+			return -1
+		}
+	}
+	for j := i + 1; j < len(ops); j++ {
+		if c15Commits(ops[j]) {
+			return j
+		}
+	}
+	if fail != 0 {
+		return len(ops)
+	}
+	return -1
+}
+
+// c15MOp: one op of the program as the model sees it, and the index in the handler's program it belongs to
+type c15MOp struct {
+	op     c15Op
+	anchor int
+}
+
+// c15ModelProg: the handler's program in the model's vocabulary: without the interface probes, and with every
+// Before hook that sets Content-Length (B) as a plain `L n` directly before the op during which the hook runs.
+func c15ModelProg(rq c15Req) []c15MOp {
+	late := map[int][]c15Op{}
+	for i, op := range rq.Ops {
+		if op.K == "B" {
+			if at := c15HookAt(rq.Ops, i, rq.Fail); at >= 0 {
+				late[at] = append(late[at], c15Op{K: "L", N: op.N})
+			}
+		}
+	}
+	var out []c15MOp
+	for i, op := range rq.Ops {
+		for _, l := range late[i] {
+			out = append(out, c15MOp{l, i})
+		}
+		if op.K != "B" && c15IsModelOp(op) {
+			out = append(out, c15MOp{op, i})
+		}
+	}
+	for _, l := range late[len(rq.Ops)] {
+		out = append(out, c15MOp{l, len(rq.Ops)})
+	}
+	return out
+}
+
 // ---------- Run: Gzip ----------
 
 type c15Out struct {
@@ -456,7 +540,22 @@ type c15Out struct {
 	oracle string
 	tags   []string
 	nontr  bool
+	facts  c15Facts
 }
+
+// c15Facts: what c15Tolerable needs to know about one response beyond what its observation tokens say (the
+// observation shows the DECODED body, so the number of bytes on the wire is not in it)
+type c15Facts struct {
+	known    bool // the response was observed (no panic, not a placeholder)
+	encFree  bool // Gzip: the client accepts gzip, the request is not skipped, the handler does not label the body itself and the compressor can be built
+	badLevel bool // Gzip: the middleware wraps this request but compress/gzip rejects the configured level (a configuration the property does not speak about)
+	ran      bool // the handler ran
+	rawLen   int  // Gzip: bytes of body on the wire
+	status   int  // status on the wire
+}
+
+// c15Side: the facts of the responses of a case, in the order of the observation line, keyed by the case (pointer)
+var c15Side sync.Map
 
 // c15Env: what the requests of one case share
 type c15Env struct {
@@ -536,6 +635,10 @@ func c15ServeGzip1(env *c15Env, rq c15Req, sub func()) (out c15Out, ran bool) {
 	parts = append(parts, wInt(len(tr.rets)))
 	parts = append(parts, tr.rets...)
 	out.obs = strings.Join(parts, " ")
+
+	active := strings.Contains(rq.AE, "gzip") && !(env.skipper && rq.Skip)
+	out.facts = c15Facts{known: true, encFree: active && env.levelOK && !rq.Preset, badLevel: active && !env.levelOK,
+		ran: tr.ran, rawLen: len(raw.body), status: raw.status}
 
 	w := c15Wire{status: raw.status, ce: ce, cl: cl, body: raw.body, flushAt: raw.flushAt, haveFlush: true}
 	c15JudgeGzip(env, rq, tr, w, &out)
@@ -626,7 +729,7 @@ func c15JudgeGzip(env *c15Env, rq c15Req, tr *c15Trace, w c15Wire, out *c15Out) 
 	// announces a wrong length is on its own)
 	honest := !errorAnswer
 	for _, op := range rq.Ops {
-		if op.K == "L" && op.N != len(tr.wrote) {
+		if (op.K == "L" || op.K == "B") && op.N != len(tr.wrote) {
 			honest = false
 		}
 	}
@@ -743,6 +846,9 @@ func c15JudgeGzip(env *c15Env, rq c15Req, tr *c15Trace, w c15Wire, out *c15Out) 
 		switch op.K {
 		case "S", "T":
 			out.tags = append(out.tags, "stream")
+			if op.EOFWithData {
+				out.tags = append(out.tags, "stream:last-bytes-with-EOF")
+			}
 		case "P":
 			out.tags = append(out.tags, "iface:Push")
 		case "J":
@@ -753,6 +859,15 @@ func c15JudgeGzip(env *c15Env, rq c15Req, tr *c15Trace, w c15Wire, out *c15Out) 
 	}
 	if len(rq.Ops) > 0 && rq.Ops[0].K == "L" {
 		out.tags = append(out.tags, "handler-set-content-length")
+	}
+	for i, op := range rq.Ops {
+		if op.K == "B" {
+			if c15HookAt(rq.Ops, i, rq.Fail) >= 0 {
+				out.tags = append(out.tags, "handler-set-content-length:from-Before-hook")
+			} else {
+				out.tags = append(out.tags, "handler-set-content-length:from-Before-hook(never run)")
+			}
+		}
 	}
 }
 
@@ -883,6 +998,7 @@ func c15ServeDecompress1(e c15Server, skipper bool, d c15DReq, sub func()) (out 
 	rec := httptest.NewRecorder()
 	e.ServeHTTP(rec, req)
 	c15JudgeDecompress(skipper, d, wire, seen, rec.Code, &out)
+	out.facts = c15Facts{known: true, ran: seen.ran, status: rec.Code}
 	return out, seen.ran
 }
 
@@ -1045,6 +1161,7 @@ func c15GzipHandler(table func(id string) *c15Script) echo.HandlerFunc {
 			defer sc.mu.Unlock()
 		}
 		sc.tr.ran = true
+		sc.tr.fail = sc.rq.Fail
 		if sc.rq.Preset {
 			ctx.Response().Header().Set(echo.HeaderContentEncoding, "gzip")
 		}
@@ -1121,17 +1238,10 @@ func c15Run(ci any) (res Result) {
 			} else {
 				ops = append(ops, "0")
 			}
-			n := 0
-			for _, op := range rq.Ops {
-				if c15IsModelOp(op) {
-					n++
-				}
-			}
-			ops = append(ops, wStr(rq.AE), wInt(n))
-			for _, op := range rq.Ops {
-				if c15IsModelOp(op) {
-					ops = append(ops, c15OpLine(op))
-				}
+			prog := c15ModelProg(rq)
+			ops = append(ops, wStr(rq.AE), wInt(len(prog)))
+			for _, m := range prog {
+				ops = append(ops, c15OpLine(m.op))
 			}
 		}
 		for _, rq := range c.Reqs {
@@ -1141,8 +1251,8 @@ func c15Run(ci any) (res Result) {
 			} else {
 				// the position among the ops the model knows
 				at := 0
-				for i, op := range rq.Ops {
-					if i < rq.NestAt && c15IsModelOp(op) {
+				for _, m := range c15ModelProg(rq) {
+					if m.anchor < rq.NestAt {
 						at++
 					}
 				}
@@ -1245,10 +1355,17 @@ func c15Run(ci any) (res Result) {
 			tags = append(tags, "decompress:e.Use(pool per request)")
 		}
 	}
-	return c15Collect(strings.Join(ops, " "), outs, tags, c.Concurrent)
+	return c15Collect(c, strings.Join(ops, " "), outs, tags, c.Concurrent)
 }
 
-func c15Collect(opsLine string, outs []c15Out, tags []string, concurrent bool) Result {
+func c15Collect(c *c15Case, opsLine string, outs []c15Out, tags []string, concurrent bool) Result {
+	if opsLine != "" {
+		facts := make([]c15Facts, len(outs))
+		for i, o := range outs {
+			facts[i] = o.facts
+		}
+		c15Side.Store(c, facts)
+	}
 	obs := []string{wInt(len(outs))}
 	if concurrent {
 		tags = append(tags, "concurrent")
@@ -1319,7 +1436,7 @@ func c15TCPOps(ops []c15Op, fails bool) []c15Op {
 	for _, op := range ops {
 		switch {
 		case !c15IsModelOp(op):
-		case op.K == "L" && (op.N != total || fails):
+		case (op.K == "L" || op.K == "B") && (op.N != total || fails):
 			// (a handler that announces a length and then returns an error instead of the body has
 			// made the same promise it cannot keep)
 		default:
@@ -1388,7 +1505,7 @@ func c15RunGzipTCP(c *c15Case, env *c15Env, tags []string) Result {
 		hmu.Unlock()
 		outs = append(outs, out)
 	}
-	return c15Collect("", outs, tags, false)
+	return c15Collect(c, "", outs, tags, false)
 }
 
 func c15RunDecompressTCP(c *c15Case, e *echo.Echo, mw echo.MiddlewareFunc, skipper bool, tags []string) Result {
@@ -1457,7 +1574,7 @@ func c15RunDecompressTCP(c *c15Case, e *echo.Echo, mw echo.MiddlewareFunc, skipp
 		seen.mu.Unlock()
 		outs = append(outs, out)
 	}
-	return c15Collect("", outs, tags, false)
+	return c15Collect(c, "", outs, tags, false)
 }
 
 // ---------- Gen ----------
@@ -1533,6 +1650,7 @@ func c15GenProg(r *rand.Rand, m int, wide bool) []c15Op {
 				}
 				op.Chunks = append(op.Chunks, c15Data(r, sz))
 			}
+			op.EOFWithData = r.Intn(3) == 0
 			ops = append(ops, op)
 		default:
 			ops = append(ops, c15Op{K: "T", Code: c15Codes[r.Intn(len(c15Codes))], Data: c15Data(r, c15Size(r, m, wide))})
@@ -1547,7 +1665,11 @@ func c15GenProg(r *rand.Rand, m int, wide bool) []c15Op {
 				total += len(c)
 			}
 		}
-		ops = append([]c15Op{{K: "L", N: total}}, ops...)
+		k := "L"
+		if r.Intn(3) == 0 {
+			k = "B" // … from a Response.Before hook (at commit time), as a middleware mounted inside Gzip would
+		}
+		ops = append([]c15Op{{K: k, N: total}}, ops...)
 	}
 	return ops
 }
@@ -1591,7 +1713,7 @@ func c15GenReq(r *rand.Rand, m int, wide, skipper bool) c15Req {
 		if r.Intn(2) == 0 {
 			var hdrOnly []c15Op
 			for _, op := range rq.Ops {
-				if op.K == "L" || !c15IsModelOp(op) {
+				if op.K == "L" || op.K == "B" || !c15IsModelOp(op) {
 					hdrOnly = append(hdrOnly, op)
 				}
 			}
@@ -1605,7 +1727,7 @@ func c15GenReq(r *rand.Rand, m int, wide, skipper bool) c15Req {
 		if r.Intn(4) != 0 {
 			var bodyless []c15Op
 			for _, op := range rq.Ops {
-				if op.K == "L" || op.K == "H" || !c15IsModelOp(op) {
+				if op.K == "L" || op.K == "B" || op.K == "H" || !c15IsModelOp(op) {
 					bodyless = append(bodyless, op)
 				}
 			}
@@ -1951,10 +2073,17 @@ func c15Shrink(ci any) []any {
 				if len(op.Chunks) == 1 {
 					repl(c15Op{K: "W", Data: op.Chunks[0]})
 				}
+				if op.EOFWithData {
+					nop := op
+					nop.EOFWithData = false
+					repl(nop)
+				}
 			case "H":
 				if op.Code != 201 {
 					repl(c15Op{K: "H", Code: 201})
 				}
+			case "B":
+				repl(c15Op{K: "L", N: op.N})
 			}
 		}
 	}
@@ -1987,15 +2116,275 @@ func c15Shrink(ci any) []any {
 	return out
 }
 
+// ---------- Tolerable: differences between implementation and model that the property does not constrain ----------
+//
+// The statement constrains, for a Gzip response: the status (the handler's), the bytes a client recovers after undoing
+// the advertised Content-Encoding (the handler's), Content-Encoding: gzip <=> the body is a gzip stream, no stale
+// Content-Length, body-less responses empty, the count every handler-side write reports; for Decompress: whether and what
+// the handler sees of the request body.  All of these must agree between the two observation lines (or, where the
+// clause is a consistency requirement on the response itself - Content-Encoding vs body, Content-Length vs body -
+// hold on the implementation's response).  Not constrained, hence tolerated:
+//   - Vary (a header the property does not mention): any difference;
+//   - Content-Length: the implementation's response carries none, or one that IS the number of body bytes on the wire
+//     (not stale), whatever the model's response carries;
+//   - WHETHER a response is compressed (the property fixes what the client recovers, not when the threshold makes the
+//     middleware compress): `ce=1, gzip stream of X` vs `ce=0, X` - only for a client that accepts gzip, a request the
+//     middleware is in charge of (not skipped, compressor can be built), a handler that does not label its body
+//     itself, header and body consistent on the implementation's side, and - for empty X - only in the direction
+//     "the implementation sends nothing at all" ("body-less responses stay empty");
+//   - a request the middleware refuses because compress/gzip rejects the configured Level (the property quantifies
+//     over MinLength, Accept-Encoding and handler programs, not over Level): which error status, and the error body;
+//     and if the implementation ran the handler there after all, its response (the model-free oracle has judged it
+//     like any other response);
+//   - Decompress, handler not run on either side (a body labelled gzip that is not gzip): which error status (the
+//     observation only says ">= 500 or not"), provided the implementation's status is an error status.
+// Everything else - number of responses, status, decoded bytes (body and at each Flush), gzip stream complete / followed by
+// garbage, number of flushes reaching the wire, every write count and stream result, handler ran or not, what the
+// Decompress handler saw and whether its read failed - is never tolerated.
+
+type c15PCanon struct {
+	kind string // R | G | M
+	data string // hex token
+	rest string // G: "complete extra"
+}
+
+func (a c15PCanon) equal(b c15PCanon) bool { return a == b }
+
+type c15PResp struct {
+	status int
+	ce     bool
+	hasCL  bool
+	cl     string
+	vary   string
+	body   c15PCanon
+	snaps  []c15PCanon
+	rets   string
+}
+
+type c15Toks struct {
+	t   []string
+	i   int
+	bad bool
+}
+
+func (p *c15Toks) next() string {
+	if p.i >= len(p.t) {
+		p.bad = true
+		return ""
+	}
+	p.i++
+	return p.t[p.i-1]
+}
+
+func (p *c15Toks) nat() int {
+	n, err := strconv.Atoi(p.next())
+	if err != nil || n < 0 {
+		p.bad = true
+		return 0
+	}
+	return n
+}
+
+func (p *c15Toks) boolean() bool {
+	switch p.next() {
+	case "1":
+		return true
+	case "0":
+		return false
+	}
+	p.bad = true
+	return false
+}
+
+func (p *c15Toks) canon() c15PCanon {
+	switch k := p.next(); k {
+	case "R":
+		return c15PCanon{kind: k, data: p.next()}
+	case "G":
+		d := p.next()
+		c, e := p.boolean(), p.boolean()
+		return c15PCanon{kind: k, data: d, rest: wJoin(wBool(c), wBool(e))}
+	case "M":
+		return c15PCanon{kind: k}
+	}
+	p.bad = true
+	return c15PCanon{}
+}
+
+func (p *c15Toks) gzipResp() c15PResp {
+	var r c15PResp
+	r.status = p.nat()
+	r.ce = p.boolean()
+	if r.hasCL = p.boolean(); r.hasCL {
+		r.cl = p.next()
+	}
+	r.vary = p.next()
+	r.body = p.canon()
+	for i, n := 0, p.nat(); i < n && !p.bad; i++ {
+		r.snaps = append(r.snaps, p.canon())
+	}
+	start := p.i
+	for i, n := 0, p.nat(); i < n && !p.bad; i++ {
+		switch p.next() {
+		case "-":
+		case "w":
+			p.nat()
+		case "s":
+			p.nat()
+			for j, m := 0, p.nat(); j < m && !p.bad; j++ {
+				p.nat()
+			}
+		default:
+			p.bad = true
+		}
+	}
+	if !p.bad {
+		r.rets = strings.Join(p.t[start:p.i], " ")
+	}
+	return r
+}
+
+type c15PSeen struct {
+	ran  bool
+	view string
+	err  bool
+}
+
+func (p *c15Toks) seen() c15PSeen {
+	var d c15PSeen
+	d.ran = p.boolean()
+	switch k := p.next(); k {
+	case "B":
+		d.view = wJoin(k, p.next())
+	case "U":
+		d.view = k
+	default:
+		p.bad = true
+	}
+	d.err = p.boolean()
+	return d
+}
+
+// c15SameBytesOtherCoding: one side shows X as it is, the other a complete gzip stream of X and nothing after it
+func c15SameBytesOtherCoding(a, b c15PCanon, final bool) bool {
+	if a.kind == b.kind || a.data != b.data {
+		return false
+	}
+	for _, x := range []c15PCanon{a, b} {
+		switch x.kind {
+		case "R":
+		case "G":
+			if final && x.rest != "1 0" {
+				return false
+			}
+		default:
+			return false
+		}
+	}
+	return true
+}
+
+func c15TolerableGzip(i, m c15PResp, f c15Facts) bool {
+	if f.badLevel {
+		// outside the quantifier.  Served after all: the oracle has judged the response.  Refused: by an error status.
+		if f.ran {
+			return true
+		}
+		return i.status >= 400 && m.status >= 400 && i.ce == m.ce && i.body.kind == "R" && m.body.kind == "R" &&
+			len(i.snaps) == 0 && len(m.snaps) == 0 && i.rets == m.rets
+	}
+	if i.status != m.status || i.rets != m.rets || len(i.snaps) != len(m.snaps) {
+		return false
+	}
+	// what the client recovers; whether it was compressed on the way is the middleware's business
+	recoded := false
+	if !i.body.equal(m.body) {
+		if !f.encFree || !c15SameBytesOtherCoding(i.body, m.body, true) {
+			return false
+		}
+		if i.body.data == "s" && i.body.kind != "R" {
+			return false // nothing to recover: an empty body (the implementation's) is fine, a gzip stream of nothing where the model sends nothing is not
+		}
+		recoded = true
+	}
+	for k := range i.snaps {
+		if !i.snaps[k].equal(m.snaps[k]) {
+			if !f.encFree || !c15SameBytesOtherCoding(i.snaps[k], m.snaps[k], false) {
+				return false
+			}
+			recoded = true
+		}
+	}
+	// Content-Encoding: gzip exactly when the body is a gzip stream
+	if i.ce != m.ce || recoded {
+		if !f.encFree || i.ce != (i.body.kind == "G") {
+			return false
+		}
+	}
+	// no stale Content-Length
+	if i.hasCL != m.hasCL || i.cl != m.cl {
+		if i.hasCL && i.cl != strconv.Itoa(f.rawLen) {
+			return false
+		}
+	}
+	// (Vary: not mentioned by the property)
+	return true
+}
+
+func c15Tolerable(ci any, implObs, modelObs string) bool {
+	c, ok := ci.(*c15Case)
+	if !ok {
+		return false
+	}
+	v, ok := c15Side.Load(c)
+	if !ok {
+		return false
+	}
+	facts := v.([]c15Facts)
+	ip := &c15Toks{t: strings.Fields(implObs)}
+	mp := &c15Toks{t: strings.Fields(modelObs)}
+	n := ip.nat()
+	if mp.nat() != n || n != len(facts) || ip.bad || mp.bad {
+		return false
+	}
+	for k := 0; k < n; k++ {
+		if !facts[k].known {
+			return false
+		}
+		switch c.Kind {
+		case "gzip":
+			i, m := ip.gzipResp(), mp.gzipResp()
+			if ip.bad || mp.bad || !c15TolerableGzip(i, m, facts[k]) {
+				return false
+			}
+		case "decompress":
+			i, m := ip.seen(), mp.seen()
+			if ip.bad || mp.bad || i.ran != m.ran || i.view != m.view {
+				return false
+			}
+			if i.err != m.err {
+				// handler not run on either side: the flag says which class of status refused the request
+				if i.ran || facts[k].ran || facts[k].status < 400 {
+					return false
+				}
+			}
+		default:
+			return false
+		}
+	}
+	return ip.i == len(ip.t) && mp.i == len(mp.t)
+}
+
 func init() {
 	register(&Prop{
 		ID:             "C15",
-		Rule:           "7 of 8 cases: sequences of 1-5 requests (1 in 6 cases: run concurrently) through ONE Gzip instance built by GzipWithConfig{MinLength in {0,1,10,1000} (thorough: also 2,100 and, rarely, 40000 with bodies beyond io.Copy's 32 KiB buffer), Level in {default,1,9,HuffmanOnly}} or - 3 in 40 each - by Gzip(), with a negative MinLength, or - 1 in 40 - with a level compress/gzip rejects; 1 case in 8 with a Skipper (a third of its requests are skipped); underlying http.ResponseWriter: recording writer without extras (half), + io.ReaderFrom, + ReaderFrom/Pusher/Hijacker/SetWriteDeadline (a quarter each); 1 case in 25 over a real net/http server and client (oracle only); Accept-Encoding in {gzip, 'gzip, deflate, br', 'br, gzip', 'gzip;q=0', none, deflate, identity, *, x-gzip}; handler programs of 0-6 ops over {WriteHeader(code), Write(chunk), Flush, Stream(chunked reader without WriteTo), Stream(strings.Reader), and - outside the model's program - Pusher.Push, Response.Hijack, ResponseController.SetWriteDeadline} with chunk sizes {0,1,m-1,m,m+1,m/2,2m,random} around the threshold m, 1 in 6 preceded by an honest Content-Length set by the handler, 1 in 6 RETURNING AN ERROR (half of those before anything was started), 1 in 25 setting Content-Encoding: gzip itself (mostly body-less), 1 request in 5 serving a NESTED request (own program and Accept-Encoding) through the same Echo between two of its ops. 1 of 8 cases: 1-5 requests through ONE Decompress instance built by Decompress() or DecompressWithConfig{} / {GzipDecompressPool} / {Skipper} - for two thirds of the cases the constructor applied once to the handler (one reader pool for all requests), else e.Use + e.ServeHTTP, 1 in 10 over a real server with real chunked uploads - (a third of the cases start with gzip-labelled requests that have no body or a rejected one; a third of the requests serve a NESTED request through the same Echo between two reads of their own body) with Content-Encoding in {gzip, none, identity, deflate, br, GZIP, 'gzip, identity'} x body in {gzip of 1-2 members, damaged gzip (garbage after trailer / cut trailer / wrong checksum), empty, plain bytes of 1..200} x length known or unknown (ContentLength -1, chunked) x delivered in one piece or in pieces of 1..512 bytes. non-trivial = a gzip-accepted request whose switch to compression happens on a second or later write or is forced by Flush, or that ends below the threshold after >= 2 writes; or a well-formed gzip request body labelled gzip. distinct = distinct model op lines",
+		Rule:           "7 of 8 cases: sequences of 1-5 requests (1 in 6 cases: run concurrently) through ONE Gzip instance built by GzipWithConfig{MinLength in {0,1,10,1000} (thorough: also 2,100 and, rarely, 40000 with bodies beyond io.Copy's 32 KiB buffer), Level in {default,1,9,HuffmanOnly}} or - 3 in 40 each - by Gzip(), with a negative MinLength, or - 1 in 40 - with a level compress/gzip rejects; 1 case in 8 with a Skipper (a third of its requests are skipped); underlying http.ResponseWriter: recording writer without extras (half), + io.ReaderFrom, + ReaderFrom/Pusher/Hijacker/SetWriteDeadline (a quarter each); 1 case in 25 over a real net/http server and client (oracle only); Accept-Encoding in {gzip, 'gzip, deflate, br', 'br, gzip', 'gzip;q=0', none, deflate, identity, *, x-gzip}; handler programs of 0-6 ops over {WriteHeader(code), Write(chunk), Flush, Stream(chunked reader without WriteTo), Stream(strings.Reader), and - outside the model's program - Pusher.Push, Response.Hijack, ResponseController.SetWriteDeadline} with chunk sizes {0,1,m-1,m,m+1,m/2,2m,random} around the threshold m, 1 in 6 preceded by an honest Content-Length set by the handler (a third of those from a Response.Before hook, i.e. at commit time), a third of the chunked readers handing out their last bytes together with io.EOF, 1 in 6 RETURNING AN ERROR (half of those before anything was started), 1 in 25 setting Content-Encoding: gzip itself (mostly body-less), 1 request in 5 serving a NESTED request (own program and Accept-Encoding) through the same Echo between two of its ops. 1 of 8 cases: 1-5 requests through ONE Decompress instance built by Decompress() or DecompressWithConfig{} / {GzipDecompressPool} / {Skipper} - for two thirds of the cases the constructor applied once to the handler (one reader pool for all requests), else e.Use + e.ServeHTTP, 1 in 10 over a real server with real chunked uploads - (a third of the cases start with gzip-labelled requests that have no body or a rejected one; a third of the requests serve a NESTED request through the same Echo between two reads of their own body) with Content-Encoding in {gzip, none, identity, deflate, br, GZIP, 'gzip, identity'} x body in {gzip of 1-2 members, damaged gzip (garbage after trailer / cut trailer / wrong checksum), empty, plain bytes of 1..200} x length known or unknown (ContentLength -1, chunked) x delivered in one piece or in pieces of 1..512 bytes. non-trivial = a gzip-accepted request whose switch to compression happens on a second or later write or is forced by Flush, or that ends below the threshold after >= 2 writes; or a well-formed gzip request body labelled gzip. distinct = distinct model op lines",
 		New:            func() any { return &c15Case{} },
 		Gen:            c15Gen,
 		Run:            c15Run,
 		Shrink:         c15Shrink,
 		Known:          func(c any, res Result, modelObs string) string { return "" },
+		Tolerable:      c15Tolerable,
 		Correspondence: "C15.serveNestedAllX (Gzip / GzipWithConfig defaults + Skipper + gzipResponseWriter + echo.Response + Context.Stream + the error handler after the chain) and C15.decompressSeqX (Decompress / DecompressWithConfig + Skipper) in lean/EchoModel/C15.lean vs the middleware driven through e.ServeHTTP with a recording http.ResponseWriter (with and without io.ReaderFrom / Pusher / Hijacker); wire bytes decoded with compress/gzip before comparison",
 	})
 }
